@@ -1064,7 +1064,10 @@ class Rewriter:
             if i['action'] in {'modify', 'rm'}:
                 remove_node(i)
             elif i['action'] == 'add':
-                files[T.cast(str, i['file'])]['raw'] += T.cast(str, i['str']) + '\n'
+                raw = files[T.cast(str, i['file'])]['raw']
+                if raw and not raw.endswith('\n'):
+                    raw += '\n'
+                files[T.cast(str, i['file'])]['raw'] = raw + T.cast(str, i['str']) + '\n'
 
         # Write the files back
         for key, val in files.items():
